@@ -153,6 +153,7 @@ class Env(gpp.UGenParameter, gpp.NodeParameter):
         'sine': 3,
         'wel': 4,
         'welch': 4,
+        'sqr': 6,
         'sqrt': 6,
         'squared': 6,
         'cub': 7,
